@@ -760,20 +760,20 @@ void run_queue(In& in) {
       label(L_Q_FULL);
       if (K == QK_NIKB && n < cap) fail("unjustified_full", "try_push failed with %zu of %u slots in use and nothing in progress", n, cap);
       if (K == QK_VYU && !weak && n < effcap) fail("unjustified_full", "strong try_push failed with %zu of %u slots in use", n, effcap);
-      if (K == QK_VYU && weak && n < effcap) fail("unjustified_full", "try_push_weak failed with %zu of %u slots in use and nothing in progress", n, effcap);
+      // (a weak push may fail spuriously by the text of C05: no verdict rule for it)
       if (K == QK_KB && n < (size_t)(segs - 1) * k + 1) fail("unjustified_full", "try_push failed with %zu values stored (k=%u, %u segments)", n, k, segs);
     }
   };
   auto pop = [&](unsigned variant) {
     UP r;
-    bool ok;
+    bool ok, weak_pop = false;
     if constexpr (K == QK_VYU) {
       if (variant % 3 == 0)
         ok = q->try_pop_strong(r);
       else if (variant % 3 == 1)
         ok = q->try_pop(r);
       else
-        ok = q->try_pop_weak(r);
+        ok = q->try_pop_weak(r), weak_pop = true;
     } else if constexpr (K == QK_FIFO) {
       ok = q->try_pop(r);
     } else {
@@ -789,8 +789,8 @@ void run_queue(In& in) {
     dumpf("  pop -> %d (%d)\n", (int)ok, ok && r ? r->id : -1);
     if (!ok) {
       label(L_Q_EMPTY);
-      if (!model.empty()) fail("unjustified_empty", "pop reported empty with %zu values stored and nothing in progress", model.size());
-      return;
+      if (!model.empty() && !weak_pop) fail("unjustified_empty", "pop reported empty with %zu values stored and nothing in progress", model.size());
+      return; // (a weak pop may fail spuriously by the text of C05)
     }
     if (!r) fail("invented_element", "pop succeeded but handed out no element");
     if (r->canary != 0xC0FFEE) fail("use_after_destroy", "pop handed out a destroyed element");
